@@ -671,6 +671,12 @@ func splitFormat(format string) (pieces []string, verbs []byte, ok bool) {
 			cur += format[i : i+1] // bytes, not string(byte): a non-ASCII literal piece must stay the same UTF-8 string
 			continue
 		}
+		if i+1 < len(format) && format[i+1] == '%' {
+			// "%%" prints a literal percent sign
+			cur += "%"
+			i++
+			continue
+		}
 		if i+1 >= len(format) || (format[i+1] != 's' && format[i+1] != 'd') {
 			return nil, nil, false
 		}
